@@ -187,4 +187,16 @@ def correspondence(rng, tier):
     r['distinct'] = r.get('distinct', 0) + f.get('distinct', 0)
     r.setdefault('distribution', {})['la_operands_unmodified_programs'] = f.get('programs', 0)
     r['rule'] = r.get('rule', '') + '; plus la_operands_unmodified: ' + f.get('rule', '')
+    # array_history_programs: the array histories of the C16 generator (shared array objects, views, broadcasting ufuncs,
+    # ufuncs that RAISE part-way, then reads of the same objects): what an array reports must not depend on the earlier
+    # calls, failing ones included (model Array.v; harness/arrays.py)
+    f = __import__('arrays').array_correspondence(rng, 250 if tier == 'quick' else 6000, 'C10arr', profile='general',
+                                                  per_file=50 if tier == 'quick' else 200)
+    r['mismatches'] += f.get('mismatches', [])
+    r['programs'] += f.get('programs', 0); r['steps'] += f.get('steps', 0)
+    r['distinct'] = r.get('distinct', 0) + f.get('distinct', 0)
+    r.setdefault('distribution', {})['array_history_programs'] = {'programs': f.get('programs', 0), 'notes': f.get('distribution', {}).get('notes')}
+    r['rule'] = r.get('rule', '') + ('; plus array_history_programs: random histories of 6-14 operations on 2-4 shared UncertainArray objects '
+                                     '(views, broadcasting and failing ufuncs, reads of the dispatcher afterwards; the generator returns to objects whose '
+                                     'dispatched ufunc raised), model Array.v')
     return r
